@@ -484,11 +484,13 @@ struct Emitter {
             Type* want = FT->getParamType(0)->getPointerElementType();
             Type* have = CT->getParamType(0)->getPointerElementType();
             if (want->isStructTy() && have->isStructTy()) {
-              ok = derivesFrom(have, want);
+              // an override in a derived class, or the implementation inherited from a base class
+              bool down = derivesFrom(have, want), up = derivesFrom(want, have);
+              ok = down || up;
               // objects held by value in std containers have exactly their static type:
               // std::_Destroy<T>(T*) / allocator::destroy<T>(T*) destroy a T, never a class derived from T
               StringRef encl = CB.getFunction()->getName();
-              if (ok && (encl.startswith("_ZSt8_DestroyI") || encl.contains("7destroyI")) && !derivesFrom(want, have)) ok = false;
+              if (ok && (encl.startswith("_ZSt8_DestroyI") || encl.contains("7destroyI")) && !(down && up)) ok = false;
             }
           }
           for (unsigned i = 1; ok && i < CT->getNumParams(); ++i) if (CT->getParamType(i) != FT->getParamType(i)) ok = false;
